@@ -59,6 +59,21 @@ def run(rep, tier, seed):
         op = rnd.choice(ops)
         items.append({"id": base + i, "prog": [OBS_DECL, obs(bin_(op, a, b))], "op": op, "ta": ka + ":rand",
                       "tb": kb + ":rand"})
+    # doubles far outside the dyadic model (tiny, subnormal, huge): the model only knows that they are finite and not
+    # zero - so no operation on them divides by zero, arithmetic with them yields a float, bitwise operators refuse them
+    def oom(txt):
+        return lit({"k": "float", "c": "oom", "m": 0, "e": 0, "txt": txt})
+    far = ["1e-300", "5e-324", "1e-17", "0.0000000000000001", "-1e-200", "2.2e-16", "1e300", "-1.7976931348623157e308", "1e-320"]
+    partners = [("int:1", lit(vint(1))), ("int:0", lit(vint(0))), ("int:-7", lit(vint(-7))), ("float:2.5", lit(vfloat(2.5))),
+                ("float:0.0", lit(vfloat(0.0))), ("float:-0.0", lit(vfloat("nzero"))), ("byte:3", lit(vbyte(3))),
+                ("float:nan", lit(vfloat("nan"))), ("float:inf", lit(vfloat("pinf")))]
+    kf = 3000000
+    for txt in far:
+        for op in ops:
+            for tp, pv in partners + [("float:far", oom(far[0]))]:
+                for a, b, ta, tb in ((oom(txt), pv, "float:far", tp), (pv, oom(txt), tp, "float:far")):
+                    items.append({"id": kf, "prog": [OBS_DECL, obs(bin_(op, a, b))], "op": op, "ta": ta, "tb": tb})
+                    kf += 1
     # operands held in variables: the same value on both sides (x op x), an operand stored in an array slot, passed
     # as an argument - an operator must see values, not where they live
     from ..past import let, ident, idx, arr, call, fndef, expr
@@ -81,6 +96,23 @@ def run(rep, tier, seed):
             for how, prog in progs_:
                 items.append({"id": k, "prog": prog, "op": op, "ta": tag + ":" + how, "tb": tag + ":same"})
                 k += 1
+    # + on arrays builds a new array whatever the operands are (an empty one, the same one twice): changing the result
+    # afterwards changes neither operand, changing an operand afterwards does not change the result
+    from ..past import asg
+    kc = 4000000
+    conts = {"empty": [], "one": [lit(vint(1))], "two": [lit(vint(1)), lit(vint(2))]}
+    for ln_, l_ in conts.items():
+        for rn_, r_ in conts.items():
+            for how in ("change-result", "change-left", "change-right", "self"):
+                pre = [OBS_DECL, let("a", arr(*l_)), let("b", arr(*r_))]
+                if how == "self":
+                    body = [let("c", bin_("+", ident("a"), ident("a"))), expr(call("push", ident("c"), lit(vint(9)))), expr(call("push", ident("a"), lit(vint(8))))]
+                else:
+                    tgt = {"change-result": "c", "change-left": "a", "change-right": "b"}[how]
+                    body = [let("c", bin_("+", ident("a"), ident("b"))), expr(call("push", ident(tgt), lit(vint(9))))]
+                prog = pre + body + [obs(ident("a")), obs(ident("b")), obs(ident("c"))]
+                items.append({"id": kc, "prog": prog, "op": "+", "ta": "arr:%s:%s" % (ln_, how), "tb": "arr:%s" % rn_})
+                kc += 1
     bad, verdicts = progs.run_and_validate(rep, items, chk=())
     distinct = set()
     for it in items:
